@@ -282,3 +282,17 @@ def arg_for(call, callee, name):
         if i < len(call.args) and not any(isinstance(a, ast.Starred) for a in call.args[:i + 1]):
             return call.args[i]
     return None
+
+
+def written_base(write_call):
+    """For `<recv>.tofile(...)`: (expression that is written without a write-time conversion wrapper, dtype expression of
+    the wrapper or None).  `x.astype(D, ...).tofile(fd)` -> (x, D);  `np.asarray(x, dtype=D).tofile(fd)` -> (x, D)."""
+    recv = write_call.func.value if isinstance(write_call.func, ast.Attribute) else None
+    if isinstance(recv, ast.Call) and isinstance(recv.func, ast.Attribute) and recv.func.attr == 'astype' and \
+            (recv.args or recv.keywords):
+        d = recv.args[0] if recv.args else next((k.value for k in recv.keywords if k.arg == 'dtype'), None)
+        return recv.func.value, d
+    if isinstance(recv, ast.Call) and dotted(recv.func) in ('np.asarray', 'np.array', 'np.ascontiguousarray') and recv.args:
+        d = recv.args[1] if len(recv.args) > 1 else next((k.value for k in recv.keywords if k.arg == 'dtype'), None)
+        return recv.args[0], d
+    return recv, None
